@@ -58,6 +58,31 @@ import (
 	"github.com/cockroachdb/pebble/v2/vfs"
 )
 
+// c13Run binds the kit's monitor context to one case. Cases of the main unit run
+// on several workers while the kit's "current case" is per process, so every
+// violation re-announces its own case under a lock before it is recorded.
+type c13Run struct {
+	*verifkit.Run
+	caseIdx int
+	desc    string
+}
+
+var c13ViolMu sync.Mutex
+
+func (c *c13Run) BeginCase(i int, desc string) {
+	c.caseIdx, c.desc = i, desc
+	c13ViolMu.Lock()
+	c.Run.BeginCase(i, desc)
+	c13ViolMu.Unlock()
+}
+
+func (c *c13Run) Violation(sig string, witness any) {
+	c13ViolMu.Lock()
+	c.Run.BeginCase(c.caseIdx, c.desc)
+	c.Run.Violation(sig, witness)
+	c13ViolMu.Unlock()
+}
+
 type c13Hard struct {
 	Entry c13Entry
 	Pos   int        // number of effective entries applied before it
@@ -69,15 +94,16 @@ type c13Ref struct {
 	fam     c13Family
 	entries []c13Entry
 	results [][]byte
-	hash    [][32]byte // Snapshot() hash after entry i
-	dur     []uint64   // A's durable index after entry i
-	empty   [32]byte   // Snapshot() hash of the empty DB
-	snaps   map[int][]byte      // Snapshot() bytes after entry k-1 (k = prefix length)
-	images  map[int]*vfs.MemFS  // image of A with exactly k entries applied
+	hash    [][32]byte         // Snapshot() hash after entry i
+	dur     []uint64           // A's durable index after entry i
+	empty   [32]byte           // Snapshot() hash of the empty DB
+	snaps   map[int][]byte     // Snapshot() bytes after entry k-1 (k = prefix length)
+	images  map[int]*vfs.MemFS // image of A with exactly k entries applied
 	hard    []c13Hard
 	final   *c13Dump
 	counts  map[string]int
-	caseIdx int // workers run cases concurrently: witnesses carry the case index
+	root    string // router root of A (its crash images are opened under it)
+	caseIdx int    // workers run cases concurrently: witnesses carry the case index
 }
 
 func c13Sig(s string) string {
@@ -141,7 +167,7 @@ func c13BatchWitness(entries []c13Entry) []any {
 }
 
 // c13Apply applies one batch with a panic guard.
-func c13Apply(r *verifkit.Run, variant string, env *c13Env, batch []c13Entry) (res [][]byte, err error, panicked bool) {
+func c13Apply(r *c13Run, variant string, env *c13Env, batch []c13Entry) (res [][]byte, err error, panicked bool) {
 	start := time.Now()
 	panicked = r.Guard("ApplyBatch:"+variant, nil, func() { res, err = env.bsm.ApplyBatch(c13Ctx, c13Commands(batch)) })
 	c13Timed("apply", start)
@@ -152,7 +178,7 @@ func c13Apply(r *verifkit.Run, variant string, env *c13Env, batch []c13Entry) (r
 }
 
 // c13RunReference runs variant A and generates the log.
-func c13RunReference(r *verifkit.Run, rng *rand.Rand, fam c13Family, n int, imageAt map[int]bool, snapAt map[int]bool) *c13Ref {
+func c13RunReference(r *c13Run, rng *rand.Rand, fam c13Family, n int, imageAt map[int]bool, snapAt map[int]bool) *c13Ref {
 	fsA := vfs.NewCrashableMem()
 	a, err := c13NewEnv(fsA, fam)
 	if err != nil {
@@ -161,7 +187,7 @@ func c13RunReference(r *verifkit.Run, rng *rand.Rand, fam c13Family, n int, imag
 	}
 	defer a.close()
 	g := newC13Gen(rng, fam, &c13View{env: a})
-	ref := &c13Ref{fam: fam, snaps: map[int][]byte{}, images: map[int]*vfs.MemFS{}, counts: g.counts}
+	ref := &c13Ref{fam: fam, root: a.root, snaps: map[int][]byte{}, images: map[int]*vfs.MemFS{}, counts: g.counts}
 	if ref.empty, err = a.snapHash(); err != nil {
 		r.Violation("snapshot-error:A", err.Error())
 		return nil
@@ -286,7 +312,7 @@ func c13Shape(sizes []int) string {
 // variant cannot continue, and whether the batch was "interesting" (a command
 // with a non-ok outcome preceded by another command on the same hash slot in
 // the same batch).
-func c13CheckBatch(r *verifkit.Run, variant string, ref *c13Ref, env *c13Env, lo, hi int) (ok bool, interesting bool) {
+func c13CheckBatch(r *c13Run, variant string, ref *c13Ref, env *c13Env, lo, hi int) (ok bool, interesting bool) {
 	batch := ref.entries[lo:hi]
 	res, err, panicked := c13Apply(r, variant, env, batch)
 	if panicked {
@@ -341,7 +367,7 @@ func c13CheckBatch(r *verifkit.Run, variant string, ref *c13Ref, env *c13Env, lo
 	return true, interesting
 }
 
-func c13CompareFinal(r *verifkit.Run, variant string, ref *c13Ref, env *c13Env) {
+func c13CompareFinal(r *c13Run, variant string, ref *c13Ref, env *c13Env) {
 	d, err := env.dump()
 	if err != nil {
 		r.Violation("dump-error:"+variant, err.Error())
@@ -393,13 +419,13 @@ func TestVerifC13(t *testing.T) {
 	r.Assume("Hash slot " + fmt.Sprint(c13IncomingHS) + " is registered as incoming-delta (UpdateIncomingDeltaHashSlots) and, in half of the logs, hash slot " + fmt.Sprint(c13OutgoingHS) + " has an outgoing delta target (UpdateOutgoingDeltaTargets); the same routing facts are given to every variant. ApplyDelta only targets owned or incoming hash slots.")
 	r.Assume("Commands whose one-by-one application returns an error from ApplyBatch (fatal to the slot in multi-raft) are outside the equivalence claim; they are only checked for 'error => nothing changed'.")
 
-	nCases := r.N(64, 1000)
+	nCases := r.N(104, 420)
 	winMax := r.N(5, 8)
 	// Cases are independent (own PRNG stream, own in-memory file systems); most
 	// of an ApplyBatch is spent waiting for the meta commit coordinator's flush
 	// window, so a few workers run cases concurrently. The case index is part of
 	// every witness because the kit's "current case" is per process.
-	workers := 4
+	workers := r.N(4, 6)
 	next := make(chan int)
 	var wg sync.WaitGroup
 	for wk := 0; wk < workers; wk++ {
@@ -407,7 +433,7 @@ func TestVerifC13(t *testing.T) {
 		go func() {
 			defer wg.Done()
 			for i := range next {
-				c13RunCase(r, i, winMax)
+				c13RunCase(&c13Run{Run: r, caseIdx: i}, i, winMax)
 			}
 		}()
 	}
@@ -429,7 +455,7 @@ func TestVerifC13(t *testing.T) {
 	c13TimingMu.Unlock()
 }
 
-func c13RunCase(r *verifkit.Run, i int, winMax int) {
+func c13RunCase(r *c13Run, i int, winMax int) {
 	{
 		rng := r.Rand(13, uint64(i))
 		fam, famName := c13FamilyFor(i, rng)
@@ -502,7 +528,7 @@ func c13RunCase(r *verifkit.Run, i int, winMax int) {
 		// ---- X: every partition of a window, from a kill image of A ------------
 		if img := ref.images[winStart]; img != nil && winStart+w <= n {
 			for mask := 0; mask < 1<<(w-1); mask++ {
-				env, err := c13NewEnv(c13Clone(img, rng), fam)
+				env, err := c13NewEnvAt(c13Clone(img, rng), ref.root, fam)
 				if err != nil {
 					r.Violation("open-of-kill-image-fails:X", err.Error())
 					break
@@ -679,7 +705,7 @@ func c13RunCase(r *verifkit.Run, i int, winMax int) {
 			if hd.Pos >= n {
 				continue
 			}
-			env, err := c13NewEnv(hd.Image, fam)
+			env, err := c13NewEnvAt(hd.Image, ref.root, fam)
 			if err != nil {
 				r.Violation("open-of-kill-image-fails:H", err.Error())
 				continue
